@@ -93,7 +93,16 @@ type Structural struct {
 	Line   int
 }
 
+// TypeInv: an assumed invariant of the values of one named type (`//@ typeinv T :: expr over self`): assumed of every
+// non-nil *T loaded from the heap (the "is_valid()" of inputs); listed as an assumption in the evidence.
+type TypeInv struct {
+	PkgPath, Name string
+	E             Expr
+	Src           string
+}
+
 type Contracts struct {
+	TypeInvs    map[string]*TypeInv // key: pkgpath + "." + type name
 	Structurals []*Structural
 	Funcs  map[string]*FuncContract // key: pkgpath + "::" + name
 	Specs  map[string]*SpecFunc     // key: name (global namespace, must be unique)
@@ -105,7 +114,7 @@ type Contracts struct {
 
 func fkey(pkg, name string) string { return pkg + "::" + name }
 
-var kwRe = regexp.MustCompile(`^(func|spec|lemma|axiom|uf|structural|in|fields|except|types|requires|ensures|invariant|loop|assigns|pure|inline|trusted|maypanic|nosafe|abstract|fresh|at|props|finding|noeffect|freshonly|opaque|assumes|after)\b`)
+var kwRe = regexp.MustCompile(`^(func|spec|lemma|axiom|uf|typeinv|structural|in|fields|except|types|requires|ensures|invariant|loop|assigns|pure|inline|trusted|maypanic|nosafe|abstract|fresh|at|props|finding|noeffect|freshonly|opaque|assumes|after)\b`)
 
 // loadContractFile parses one file. pkgPath is the import path of the package it annotates.
 func (cs *Contracts) loadContractFile(path, pkgPath string) error {
@@ -398,6 +407,23 @@ func (cs *Contracts) loadContractFile(path, pkgPath string) error {
 				}
 			}
 			cs.UFs[name] = &UFDecl{PkgPath: pkgPath, Name: name, Params: ps, Ret: strings.TrimSpace(rest[j+1:])}
+			cur = nil
+		case "typeinv":
+			// typeinv T :: expr
+			i := strings.Index(rest, "::")
+			if i < 0 {
+				return fmt.Errorf("%s:%d: typeinv needs 'T :: expr'", path, rc.line)
+			}
+			name := strings.TrimSpace(rest[:i])
+			body := strings.TrimSpace(rest[i+2:])
+			e, err := ParseExpr(body)
+			if err != nil {
+				return fmt.Errorf("%s:%d: %v", path, rc.line, err)
+			}
+			if cs.TypeInvs == nil {
+				cs.TypeInvs = map[string]*TypeInv{}
+			}
+			cs.TypeInvs[pkgPath+"."+name] = &TypeInv{PkgPath: pkgPath, Name: name, E: e, Src: body}
 			cur = nil
 		case "lemma", "axiom":
 			i := strings.Index(rest, ":")
